@@ -628,10 +628,18 @@ def _r8(repo: Repo, ctx) -> None:
              and any(isinstance(x, ast.Return) and norm(x.value) == 'True'
                      for x in n.body)]
     ok = bool(tests)
+    from ..shapes import derives_from
+    skip_param = 'skip_from' if 'skip_from' in hp.params() else None
+    if skip_param is None:
+        raise AnalysisError('C07.R8: has_own_policies has no skip_from '
+                            'parameter any more')
     for t in tests:
         txt = norm(t.test)
-        ok = ok and 'skip_from' in txt and 'get_subject' in txt \
-            and 'get_owned' not in txt
+        # the comparison is with the parent the type was reached from: the
+        # parameter itself or a local it travels through (work-list entry)
+        names = {x.id for x in ast.walk(t.test) if isinstance(x, ast.Name)}
+        ok = ok and derives_from(hp.node, names, skip_param) \
+            and 'get_subject' in txt and 'get_owned' not in txt
     ctx.ob('C07.R8', 'has_own_policies:relative-to-skip_from', ok,
            'has_own_policies does not decide by "is this policy inherited '
            'from skip_from": with several parents a policy inherited from '
